@@ -278,7 +278,8 @@ class DeployHarness:
         for key, src, method in case["entries"]:
             key = key.replace("<ABS>", absdir)
             manifest[key] = src + (":" + method if method else "")
-        target = os.path.join(location, "my.instance")
+        name = "my%d" % os.getpid()      # unique per worker: its shadow directories can be told apart
+        target = os.path.join(location, name + ".instance")
         allowed = [target]
         before = tree.snapshot(sb)
         raised = None
@@ -295,7 +296,7 @@ class DeployHarness:
                 else:
                     p = ST.ExperimentPackage.packageFromLocation(wf, manifest=dict(manifest))
                 if case["via"] == "newInstanceDirectory":
-                    made = ST.ExperimentInstanceDirectory.newInstanceDirectory(location, p, stamp=False, name="my")
+                    made = ST.ExperimentInstanceDirectory.newInstanceDirectory(location, p, stamp=False, name=name)
                 else:
                     p.expandPackageToDirectory(target, p.configuration.file_format)
             except BaseException as e:
@@ -304,7 +305,7 @@ class DeployHarness:
             shadow_root = os.path.join("/tmp", "chpc-%s-shadow" % getpass.getuser())
             allowed.append(shadow_root)
             for n in os.listdir(shadow_root) if os.path.isdir(shadow_root) else []:
-                if n.startswith("my-") and n.endswith(".shadow"):
+                if n.startswith(name + "-") and n.endswith(".shadow"):
                     self.shadows.append(os.path.join(shadow_root, n))
         after = tree.snapshot(sb)
         rel_target = os.path.relpath(target, sb)
